@@ -7,11 +7,11 @@ import (
 	"os"
 	"os/exec"
 	"path/filepath"
-	"strings"
-	"sync"
 	"runtime/debug"
 	"sort"
 	"strconv"
+	"strings"
+	"sync"
 	"time"
 
 	"verif/ssvcheck/internal/core"
